@@ -55,7 +55,7 @@ pub fn gen_cases(seed: u64, n: usize, allow_tz_lazies: bool) -> Vec<Case> {
         if !denotable(&ast) {
             continue;
         }
-        let text = render::plain(&ast);
+        let mut text = render::plain(&ast);
         let ctx = match r.below(10) {
             0 | 1 => CtxKind::None,
             2 => CtxKind::Synthetic(r.pick(&crate::gen::ctx::SYNTHETIC).to_string()),
@@ -70,6 +70,10 @@ pub fn gen_cases(seed: u64, n: usize, allow_tz_lazies: bool) -> Vec<Case> {
                 }
             }
         };
+        if matches!(ctx, CtxKind::Coords(..)) {
+            // make the answer depend on the sun events of the place
+            text = format!("{text}, (sunrise-00:20)-(sunset+00:20) unknown");
+        }
         let t = super::c03::gen_instant(&mut r, &ast).with_nanosecond_safe();
         out.push(Case { id: out.len(), text, ctx, t });
     }
@@ -181,6 +185,47 @@ pub fn reference(args: &Args, rep: &mut Report, n: usize, allow_tz: bool) -> Vec
         }
         if a.starts_with("PANIC") {
             rep.violation("panic", format!("case {} {:?} [{:?}]: {a}", c.id, c.text, c.ctx), json!({"seed": args.seed, "case": c.id, "expr": c.text}), None);
+        }
+        // adversarial histories: neighbours that share all but one component with the case
+        // (other place / country / zone / calendar on the same and adjacent dates; another
+        // expression in the same context) are evaluated immediately before it; and a fresh thread
+        // (empty thread-local state) evaluates it alone
+        let mut r = Rng::new(args.seed, 0x1e7, c.id as u64);
+        let mut histories: Vec<(String, Case)> = Vec::new();
+        for dt in [-1i64, 0, 1] {
+            let other_ctx = match &c.ctx {
+                CtxKind::Coords(lat, _) => {
+                    let s = SITES.iter().find(|s| s.0 != *lat).unwrap();
+                    CtxKind::Coords(s.0, s.1)
+                }
+                CtxKind::Country(code) => CtxKind::Country(if code == "FR" { "US".into() } else { "FR".into() }),
+                CtxKind::Zone(z) => CtxKind::Zone(if z == "Europe/Paris" { "Asia/Tokyo".into() } else { "Europe/Paris".into() }),
+                CtxKind::Synthetic(s) => CtxKind::Synthetic(if s == "dense" { "runs".into() } else { "dense".into() }),
+                CtxKind::None => CtxKind::Synthetic("dense".into()),
+            };
+            histories.push((format!("same expression in another context at t{dt:+}d"), Case { id: c.id, text: c.text.clone(), ctx: other_ctx, t: c.t + Duration::days(dt) }));
+            histories.push((format!("another expression in the same context at t{dt:+}d"), Case { id: c.id, text: other.text.clone(), ctx: c.ctx.clone(), t: c.t + Duration::days(dt) }));
+        }
+        r.shuffle(&mut histories);
+        for (what, h) in histories.iter().take(4) {
+            let _ = eval_case(h);
+            let again = eval_case(c);
+            rep.evaluations += 2;
+            rep.count("history_interference_probes");
+            if again != a {
+                rep.violation("result_depends_on_history", format!("case {} {:?} [{:?}] at {}: evaluated right after {what} ({:?} [{:?}] at {}), the result differs from the earlier one:\n  before {a}\n  after  {again}", c.id, c.text, c.ctx, c.t, h.text, h.ctx, h.t), json!({"seed": args.seed, "case": c.id, "expr": c.text}), None);
+                break;
+            }
+        }
+        let c2 = c.clone();
+        let fresh = std::thread::spawn(move || {
+            crate::out::install_quiet_panic_hook();
+            eval_case(&c2)
+        })
+        .join()
+        .unwrap_or_else(|_| "PANIC in thread".into());
+        if fresh != a {
+            rep.violation("result_depends_on_history", format!("case {} {:?} [{:?}] at {}: a fresh thread evaluating it alone gets a different result:\n  main thread  {a}\n  fresh thread {fresh}", c.id, c.text, c.ctx, c.t), json!({"seed": args.seed, "case": c.id, "expr": c.text}), None);
         }
         answers.push(a);
     }
